@@ -94,17 +94,10 @@ impl BigNum {
     /// assert_eq!("-4321", b.to_string());
     /// ```
     pub fn new(n: isize) -> BigNum {
-        if n >= 0 {
-            BigNum {
-                pos: true,
-                val: vec![n as u32],
-            }
-        } else {
-            BigNum {
-                pos: false,
-                val: vec![(-n) as u32],
-            }
-        }
+        let m = n.unsigned_abs() as u64;
+        let mut res = BigNum::from_vec(vec![m as u32, (m >> 32) as u32]);
+        res.pos = n >= 0;
+        res
     }
 
     /// Makes new `BigNum` from vector
